@@ -117,6 +117,7 @@ func c03(r *core.Run) {
 	c03Perm(r)
 	c03GateSwap(r, "C03.GATE.swap")
 	c03GateComm(r, "C03.GATE.comm")
+	c12IVGate(r, "C03.GATE.iv", "C03.GATE.iv")
 	c03GateHoist(r)
 	c16EnumRule(r, "C03.ENUM")
 }
